@@ -288,6 +288,70 @@ def parent_variant(lay):
     return {"files": files, "opts": dict(lay["opts"], inputs=[new[lay["opts"]["inputs"][0]]]), "kind": "parent_variant"}
 
 
+def crossdir_pass(ctx, rng, n, dist):
+    """implementation only (the file model is single-directory): a layer that is a symbolic link into ANOTHER directory
+    inherits from its target's name, looked up next to the target - so the tree must evaluate exactly like the flat
+    directory in which the link is replaced by the file it points to; a file next to the link that happens to carry the
+    parent's name must be ignored"""
+    bkl = os.path.join(ctx.bindir, "bkl")
+    done = 0
+    for i in range(n):
+        r = rng.fork("x%d" % i)
+        base = os.path.join(ctx.work, "xd%d" % i)
+        shutil.rmtree(base, ignore_errors=True)
+        os.makedirs(os.path.join(base, "t", "shared"))
+        os.makedirs(os.path.join(base, "t", "envs", "prod"))
+        os.makedirs(os.path.join(base, "flat"))
+        ext = r.pick(["yaml", "json"])
+        docs = {"app": [{"a": 1, "shared": "base"}], "app.web": [{"b": r.pick([2, "w", [1]]), "shared": "web"}], "top": [{"c": 3, "shared": "top"}]}
+        same_name = r.chance(1, 2)
+        link_base = "app.web" if same_name else r.pick(["svc.web", "x.y", "svc"])
+        for d in ("t/shared", "flat"):
+            open(os.path.join(base, d, "app." + ext), "w").write(gen.emit(ext, docs["app"]))
+            open(os.path.join(base, d, "app.web." + ext), "w").write(gen.emit(ext, docs["app.web"]))
+        link_target = r.pick(["../../shared/app.web." + ext, "../../shared/app.web." + ext, os.path.join(base, "t", "shared", "app.web." + ext)])
+        os.symlink(link_target, os.path.join(base, "t", "envs", "prod", link_base + "." + ext))
+        open(os.path.join(base, "t", "envs", "prod", link_base + ".prod." + ext), "w").write(gen.emit(ext, docs["top"]))
+        open(os.path.join(base, "flat", "app.web.prod." + ext), "w").write(gen.emit(ext, docs["top"]))
+        decoy = r.chance(1, 2)
+        if decoy:
+            # next to the link: a file with the name the parent WOULD have if the link's own directory were searched
+            pname = link_base.rsplit(".", 1)[0] if "." in link_base else None
+            if pname:
+                open(os.path.join(base, "t", "envs", "prod", pname + "." + ext), "w").write(gen.emit(ext, [{"z": 9, "shared": "decoy"}]))
+        a = core.cli(bkl, ["-f", "json", link_base + ".prod." + ext], os.path.join(base, "t", "envs", "prod"))
+        b = core.cli(bkl, ["-f", "json", "app.web.prod." + ext], os.path.join(base, "flat"))
+        done += 1
+        k = "crossdir_" + ("same_name" if same_name else "other_name") + ("_decoy" if decoy else "")
+        dist[k] = dist.get(k, 0) + 1
+        known_shape = os.path.isabs(link_target) and "path escapes from parent" in a[2]
+        room = (sum(1 for v in ctx.violations if v.get("abs_link") and "path escapes" in v.get("stderr", "")) < 1) if known_shape else \
+               (sum(1 for v in ctx.violations if not (v.get("abs_link") and "path escapes" in v.get("stderr", ""))) < 5)
+        if (a[0], a[1]) != (b[0], b[1]) and room:
+            ctx.violations.append({"name": "crossdir-%d" % i, "property": "C03", "kind": "failing-input",
+                                   "why": "a link into another directory (%s -> shared/app.web.%s%s) does not inherit from its target's name: rc %d/%d, %r vs the flat layout's %r; %s"
+                                          % (link_base + "." + ext, ext, ", with a decoy next to the link" if decoy else "", a[0], b[0], a[1][:200], b[1][:200], a[2][-150:]),
+                                   "abs_link": os.path.isabs(link_target), "stderr": a[2][-200:], "class": "c03-crossdir-link"})
+        shutil.rmtree(base, ignore_errors=True)
+    return done
+
+
+def check_known(ctx, k):
+    """replays the witness of a recorded finding; True while it still fails"""
+    if k.get("class") == "absolute-symlink-layer":
+        d = os.path.join(ctx.work, "known_abs")
+        shutil.rmtree(d, ignore_errors=True)
+        os.makedirs(d)
+        open(os.path.join(d, "base.yaml"), "w").write("a: 1\n")
+        os.symlink(os.path.join(d, "base.yaml"), os.path.join(d, "labs.yaml"))
+        os.symlink("base.yaml", os.path.join(d, "lrel.yaml"))
+        bkl = os.path.join(ctx.bindir, "bkl")
+        ra = core.cli(bkl, ["-f", "json", "labs.yaml"], d)
+        rr = core.cli(bkl, ["-f", "json", "lrel.yaml"], d)
+        return rr[0] == 0 and ra[0] != 0
+    return None
+
+
 def run(ctx):
     n = ctx.n(400, 8000)
     rng = core.Rng(ctx.seed)
@@ -336,7 +400,8 @@ def run(ctx):
                                    "layout": {a: [b[0], core.to_jsonable(b[1])] for a, b in lay["files"].items()}, "opts": lay["opts"],
                                    "implementation": {"rc": res[0], "stdout": res[1].decode("utf-8", "replace")[:1000], "stderr": res[2][-300:]},
                                    "model": core.to_jsonable(m), "class": "c03-disagreement"})
-    return {"evaluations": n * 2, "distinct_nontrivial": nt, "rule": RULE,
+    nx = crossdir_pass(ctx, core.Rng(ctx.seed + 5), ctx.n(24, 400), dist)
+    return {"evaluations": n * 2 + nx * 2, "distinct_nontrivial": nt, "rule": RULE,
             "samples": [{"files": {a: [b[0], core.to_jsonable(b[1])] for a, b in l["files"].items()}, "opts": l["opts"]} for l in lays[:2]],
             "distribution": dist, "disagreements_checked": len(ctx.violations)}
 
@@ -356,4 +421,7 @@ def replay(ctx, payload):
 
 
 def matches_known(k, v):
+    # only the recorded shape: a layer reached through a link with an ABSOLUTE target is refused by the root handle
+    if k.get("class") == "absolute-symlink-layer":
+        return v.get("class") == "c03-crossdir-link" and v.get("abs_link") is True and "path escapes from parent" in v.get("stderr", "")
     return False
